@@ -181,7 +181,7 @@ Definition hash_run (case obs : sx) : verdict :=
   | _, _ => BadCase
   end.
 
-Definition as_filter (s : sx) : option filter :=
+Definition as_filter (s : sx) : option ffilter :=
   match s with
   | SL [SZ 0; f; SZ count] => match as_bool f with Some f => Some (FCut f count) | None => None end
   | SL [SZ 1; SZ mode; SB cs] => Some (FTrimTo mode cs)
